@@ -640,5 +640,78 @@ func init() {
 	}
 }
 
+// canon renders a tree canonically; symbolic leaves are rendered by term
+// identity, so equal trees (same terms) render equally.
+func (n *jnode) canon(sb *strings.Builder) {
+	switch n.kind {
+	case jNull:
+		sb.WriteString("null")
+	case jBool, jNum, jStr:
+		if s, ok := n.val.(*sym); ok {
+			fmt.Fprintf(sb, "<t%d>", s.t.ID)
+		} else {
+			fmt.Fprintf(sb, "%#v", n.val)
+		}
+	case jArr:
+		sb.WriteByte('[')
+		for i, c := range n.arr {
+			if i > 0 {
+				sb.WriteByte(',')
+			}
+			c.canon(sb)
+		}
+		sb.WriteByte(']')
+	case jObj:
+		sb.WriteByte('{')
+		for i, k := range n.keys {
+			if i > 0 {
+				sb.WriteByte(',')
+			}
+			fmt.Fprintf(sb, "%q:", k)
+			n.vals[i].canon(sb)
+		}
+		sb.WriteByte('}')
+	}
+}
+
+// extSHA256 is the contract stub of crypto/sha256.Sum256: a deterministic,
+// collision-free-in-practice function of the input bytes. JSON tokens inside
+// the input are replaced by the canonical rendering of their trees, so two
+// encodings of equal values hash equally (as with real JSON bytes).
+func extSHA256(fr *frame, a []value) value {
+	m := fr.i.m
+	var sb strings.Builder
+	data := a[0].([]value)
+	var raw strings.Builder
+	for _, b := range data {
+		c, ok := b.(byte)
+		if !ok {
+			panic(engineError("sha256 of symbolic bytes"))
+		}
+		raw.WriteByte(c)
+	}
+	s := raw.String()
+	for {
+		i := strings.Index(s, jsonMagic)
+		if i < 0 {
+			sb.WriteString(s)
+			break
+		}
+		sb.WriteString(s[:i])
+		end := strings.IndexByte(s[i:], ';')
+		id, _ := strconv.Atoi(s[i+len(jsonMagic) : i+end])
+		if n := m.jsonBlobs[id]; n != nil {
+			n.canon(&sb)
+		}
+		s = s[i+end+1:]
+	}
+	sum := sha256Sum([]byte(sb.String()))
+	out := make(array, 32)
+	for i := range out {
+		out[i] = sum[i]
+	}
+	return out
+}
+
 // jsonStubs are installed only when the spec asks for the "json" contract stub.
 var jsonStubs map[string]externalFn
